@@ -80,7 +80,11 @@ class DefUse:
             else:
                 inner = ("cut",)
         elif len(ds) == 1:
-            inner = self._def_term(ds[0], depth - 1, seen)
+            d0 = ds[0]
+            plain_copy = d0.kind == "assign" and d0.rv.kind == "use" and d0.rv.operands() and d0.rv.operands()[0].place is not None and \
+                not d0.rv.operands()[0].place.proj
+            # a plain copy / move of another local costs no depth (argument passing and result slots of spliced helpers are such copies)
+            inner = self._def_term(d0, depth if plain_copy else depth - 1, seen)
         else:
             inner = ("phi", [self._def_term(d, depth - 1, seen) for d in ds[:8]])
         if name:
@@ -209,6 +213,26 @@ class DefUse:
         return out
 
 
+def _branch_variant(t):
+    """'Continue' / 'Break' if t is Try::branch of a value whose variant is known (Ok / Some -> Continue; Err / None / a residual -> Break)"""
+    hops = 0
+    while hops < 10 and (t[0] in ("var", "ref", "deref") or (t[0] == "phi" and len(t[1]) == 1)):
+        t = t[3] if t[0] == "var" else (t[1][0] if t[0] == "phi" else t[1])
+        hops += 1
+    if t[0] != "call" or callee_name(t) != "branch" or not t[2]:
+        return None
+    a = t[2][0]
+    hops = 0
+    while hops < 10 and (a[0] in ("var", "ref", "deref") or (a[0] == "phi" and len(a[1]) == 1)):
+        a = a[3] if a[0] == "var" else (a[1][0] if a[0] == "phi" else a[1])
+        hops += 1
+    if a[0] == "agg" and a[2] in ("Ok", "Some"):
+        return "Continue"
+    if (a[0] == "agg" and a[2] in ("Err", "None")) or (a[0] == "call" and callee_name(a) == "from_residual"):
+        return "Break"
+    return None
+
+
 def _project_field(t, name, owner=""):
     """field projection with constant folding through tuple / struct aggregates"""
     inner = t
@@ -216,6 +240,28 @@ def _project_field(t, name, owner=""):
         inner = inner[3]
     if inner[0] == "tuple" and name.isdigit() and int(name) < len(inner[1]):
         return inner[1][int(name)]
+    # `(Try::branch(Ok(x)) as Continue).0` is x (the result slot of a helper spliced in by the inliner, tested with `?`)
+    if inner[0] == "downcast" and inner[2] in ("Continue", "Break") and name == "0":
+        c_ = inner[1]
+        hops = 0
+        while hops < 12 and (c_[0] in ("var", "ref", "deref") or c_[0] == "phi"):
+            if c_[0] == "phi":
+                # alternatives that are `branch` of a value of the other kind cannot be the variant read here
+                keep = [a for a in c_[1] if _branch_variant(a) in (None, inner[2])]
+                if len(keep) != 1:
+                    break
+                c_ = keep[0]
+            else:
+                c_ = c_[3] if c_[0] == "var" else c_[1]
+            hops += 1
+        if c_[0] == "call" and callee_name(c_) == "branch" and c_[2]:
+            a_ = c_[2][0]
+            hops = 0
+            while hops < 8 and a_[0] in ("var", "ref", "deref") or (a_[0] == "phi" and len(a_[1]) == 1):
+                a_ = a_[3] if a_[0] == "var" else (a_[1][0] if a_[0] == "phi" else a_[1])
+                hops += 1
+            if a_[0] == "agg" and a_[2] in ("Ok", "Some") and len(a_[3]) == 1:
+                return a_[3][0]
     # a captured variable read back from a closure literal of this very body (a closure spliced in by the inliner): its value
     hops = 0
     env = inner
